@@ -348,10 +348,32 @@ func (w *ccWorld) observe(o *ccObs) {
 	// the public observers of the property
 	o.InCount = ct.InboundsCount()
 	o.OutCount = ct.OutboundsCount()
+	// per IP: the controller's own counter, the recorded inbound addresses, and the harness's own count of
+	// accepted-and-open inbound connections -- the largest of the three is reported
 	o.PerIp = map[string]uint{}
 	for _, s := range w.in.Conns {
 		if _, ok := o.PerIp[s.Ip]; !ok {
 			o.PerIp[s.Ip] = ct.getInboundCountWithIp(s.Ip)
+		}
+	}
+	byAddr := map[string]uint{}
+	for _, a := range o.Inb {
+		if host, _, err := net.SplitHostPort(a); err == nil {
+			byAddr[host]++
+		}
+	}
+	open := map[string]uint{}
+	for _, c := range w.conns {
+		if c.state == "saved" && c.spec.Dir == "in" {
+			open[c.spec.Ip]++
+		}
+	}
+	for ip := range o.PerIp {
+		if byAddr[ip] > o.PerIp[ip] {
+			o.PerIp[ip] = byAddr[ip]
+		}
+		if open[ip] > o.PerIp[ip] {
+			o.PerIp[ip] = open[ip]
 		}
 	}
 	o.OpenIn, o.OpenOut = w.openIn, w.openOut
